@@ -1,0 +1,32 @@
+//go:build verif
+// +build verif
+
+package gedcom
+
+// VerifHook is only compiled with the "verif" build tag. When set it is called
+// at the channel operations and shared map accesses of the goroutines started
+// by IndividualNodes.Compare so that an execution can be recorded (and its
+// schedule perturbed) by a verification harness. It has no effect otherwise.
+var VerifHook func(role string, worker int, point string, args ...string)
+
+func verifHook(role string, worker int, point string, args ...string) {
+	if hook := VerifHook; hook != nil {
+		hook(role, worker, point, args...)
+	}
+}
+
+func verifPointer(node *IndividualNode) string {
+	if node == nil {
+		return ""
+	}
+
+	return node.Pointer()
+}
+
+func verifHit(hit bool) string {
+	if hit {
+		return "hit"
+	}
+
+	return "miss"
+}
